@@ -559,7 +559,7 @@ func genScenario(rng *rand.Rand, id int, kind string) *Scenario {
 		ps.Backoff = rng.Intn(3)
 		nc := 1 + rng.Intn(3)
 		for k := 0; k < nc; k++ {
-			ps.Codes = append(ps.Codes, []int{0, 0, 1, 2, 42, -1}[rng.Intn(6)]) // -1: the command died by a signal
+			ps.Codes = append(ps.Codes, []int{0, 0, 1, 2, 42, -1, -1}[rng.Intn(7)]) // -1: the command died by a signal
 		}
 		ps.Forever = rng.Intn(4) == 0
 		if (ps.Policy == "always" || ps.Policy == "on_failure") && ps.MaxRestarts == 0 && rng.Intn(5) != 0 {
